@@ -114,6 +114,62 @@ def step08 (infoHash ownId : Bytes) (st : M08) (x : TEntry) : Option M08 :=
 def P08 (infoHash ownId : Bytes) (expected : Option Bytes) (tr : Trace) : Bool :=
   checkTrace (step08 infoHash ownId) { validated := false, expected := expected, alive := true } tr
 
+/-! ### C09: uploads return exactly the requested stored bytes, or nothing -/
+
+structure M09 where
+  cache : Option (Nat × Bytes)   -- the piece loaded after the last consult of the manager: (index, stored bytes)
+  alive : Bool
+
+def pieceWrites (obs : List Obs) : List Msg := (writes obs).filter fun | .piece .. => true | _ => false
+
+def consulted (obs : List Obs) (idx : Nat) : Bool := (cmds obs).contains (.recvRequest idx)
+
+def wroteChoke (obs : List Obs) : Bool := (writes obs).contains .choke
+
+/-- The piece that is loaded after a consult answered with `rep` while `disk` is what the piece file holds. -/
+def loadedBy (rep : Rep) (disk : Option (Bytes × Bytes)) : Option (Nat × Bytes) :=
+  match rep, disk with
+  | .load li h, some (h', data) => if h = h' then some (li, data) else none
+  | _, _ => none
+
+/-- C09 monitor. For every block request the task either writes exactly one `Piece` carrying the same index and
+    offset and exactly the requested byte range of the piece it loaded at its last consult of the manager (which
+    answers `load` only for owned pieces while the peer is unchoked), or writes no piece data; the range lies inside
+    the piece and is at most one block long; a consult is repeated after every `Choke` the task has sent; and no
+    other input makes it write piece data. -/
+def reqOf : Msg → Option (Nat × Nat × Nat)
+  | .request i b l => some (i, b, l)
+  | _ => none
+
+/-- What a block request may produce: nothing, or exactly the requested range of the loaded piece. -/
+def uploadOk (blockSize : Nat) (cache : Option (Nat × Bytes)) (idx begin len : Nat) (pw : List Msg) : Bool :=
+  match pw with
+  | [] => true
+  | [.piece i b blk] =>
+    (match cache with
+     | some (ci, data) => decide (ci = idx ∧ i = idx ∧ b = begin ∧ len ≤ blockSize ∧ begin + len ≤ data.length ∧
+         blk = (data.drop begin).take len)
+     | none => false)
+  | _ => false
+
+def step09c (blockSize : Nat) (st : M09) (inp : TIn) (obs : List Obs) (ended : Option Bool) : Option M09 :=
+  match inp with
+  | .frame m rep disk =>
+    match reqOf m with
+    | some (idx, begin, len) =>
+      let cache' := if consulted obs idx then loadedBy rep disk else st.cache
+      if uploadOk blockSize cache' idx begin len (pieceWrites obs) then some { cache := cache', alive := ended.isNone } else none
+    | none => if (pieceWrites obs).isEmpty then some { st with alive := ended.isNone } else none
+  | .bcState _ =>
+    if (pieceWrites obs).isEmpty then
+      some { cache := if wroteChoke obs then none else st.cache, alive := ended.isNone } else none
+  | _ => if (pieceWrites obs).isEmpty then some { st with alive := ended.isNone } else none
+
+def step09 (blockSize : Nat) (st : M09) (x : TEntry) : Option M09 :=
+  if !st.alive then (if deadOk x then some st else none) else step09c blockSize st x.1 x.2.1 x.2.2
+
+def P09 (blockSize : Nat) (tr : Trace) : Bool := checkTrace (step09 blockSize) { cache := none, alive := true } tr
+
 /-! ### C06 (level 3): a receive error ends the task at once -/
 
 def step06 (alive : Bool) (x : TEntry) : Option Bool :=
